@@ -28,7 +28,7 @@ func tgt1(context.Context, rA) {}
 func TestC03Reentrancy(t *testing.T) {
 	run := vk.New("C03", "reentrancy")
 	defer run.Finish()
-	sites := []string{"handler", "ctxhandler", "asynchandler", "filter", "before", "beforectx", "after", "afterctx", "replayhandler"}
+	sites := []string{"handler", "ctxhandler", "asynchandler", "filter", "before", "beforectx", "after", "afterctx", "replayhandler", "asyncduringshutdown"}
 	calls := []string{"pub-same", "pub-other", "subscribe", "subscribectx", "unsubscribe", "clear", "clearall", "has", "count"}
 	optss := []string{"-", "once", "sequential", "async+sequential"}
 	idx := 0
@@ -124,9 +124,10 @@ func scenario(site, call, opt string) string {
 	case "afterctx":
 		opts = append(opts, ebu.WithAfterPublishContext(func(context.Context, reflect.Type, any) { reenter() }))
 	}
-	if site == "replayhandler" {
+	if site == "replayhandler" || site == "asyncduringshutdown" {
 		opts = append(opts, ebu.WithStore(ebu.NewMemoryStore()))
 	}
+	gate := make(chan struct{})
 	bus = ebu.New(opts...)
 	var so []ebu.SubscribeOption
 	switch opt {
@@ -151,6 +152,10 @@ func scenario(site, call, opt string) string {
 		ebu.Subscribe(bus, func(rA) { reenter() }, append(so, ebu.Async())...)
 	case "filter":
 		ebu.Subscribe(bus, func(rA) {}, append(so, ebu.WithFilter(func(rA) bool { reenter(); return true }))...)
+	case "asyncduringshutdown":
+		// an async handler on a persistent bus that is still in flight when Shutdown is called and
+		// calls back into the bus while Shutdown waits for it
+		ebu.Subscribe(bus, func(rA) { <-gate; reenter() }, append(so, ebu.Async())...)
 	case "replayhandler":
 		// a handler registered through SubscribeWithReplay on a persistent bus (live phase)
 		if err := ebu.SubscribeWithReplay(context.Background(), bus, "sub", func(rA) { reenter() }, so...); err != nil {
@@ -160,6 +165,18 @@ func scenario(site, call, opt string) string {
 		ebu.Subscribe(bus, func(rA) {}, so...)
 	}
 	ebu.Publish(bus, rA{N: 1})
+	if site == "asyncduringshutdown" {
+		sd := make(chan error, 1)
+		go func() { sd <- bus.Shutdown(context.Background()) }()
+		for i := 0; i < 50; i++ {
+			runtime.Gosched()
+		}
+		time.Sleep(2 * time.Millisecond) // let Shutdown start waiting; either order is legal
+		close(gate)
+		if err := <-sd; err != nil {
+			return "Shutdown with a live context returned " + err.Error()
+		}
+	}
 	bus.Wait()
 	if enteredN.Load() == 0 {
 		return "the callback site was never reached"
